@@ -1217,7 +1217,7 @@ func (r *run) tree(depth int) interface{} {
 // valueTree additionally produces Go values json.Unmarshal never would.
 func (r *run) valueTree(depth int) interface{} {
 	t := r.t
-	k := t.Choose(16, "vtree-kind")
+	k := t.Choose(17, "vtree-kind")
 	if depth >= 5 && k < 4 {
 		k = 4
 	}
@@ -1249,9 +1249,34 @@ func (r *run) valueTree(depth int) interface{} {
 		return []interface{}(nil)
 	case 14:
 		return json.Number("1.5")
+	case 15:
+		// a value that contains itself (directly or through a second slice):
+		// legal Go, never produced by json.Unmarshal
+		a := make([]interface{}, 2)
+		b := []interface{}{a, 1.5}
+		a[0], a[1] = 2.5, b
+		if t.Bool("vtree-self") {
+			a[0] = a
+		}
+		return a
 	default:
 		return []interface{}{1.5, 2.5}
 	}
+}
+
+// describe prints a coordinates value, cutting cycles and depth.
+func describe(v interface{}, depth int) string {
+	if depth > 6 {
+		return "…"
+	}
+	if a, ok := v.([]interface{}); ok {
+		parts := make([]string, 0, len(a))
+		for _, e := range a {
+			parts = append(parts, describe(e, depth+1))
+		}
+		return "[" + strings.Join(parts, " ") + "]"
+	}
+	return fmt.Sprintf("%v", v)
 }
 
 func (r *run) valueItem() {
@@ -1263,7 +1288,7 @@ func (r *run) valueItem() {
 		if !t.OneIn(20, "nil-receiver") {
 			typ := []string{"Point", "MultiPoint", "LineString", "MultiLineString", "Polygon", "MultiPolygon", "GeometryCollection", "", "Polygon "}[t.Choose(9, "val-type")]
 			gv = &geojson.Geometry{Type: typ, Coordinates: r.valueTree(0)}
-			desc = fmt.Sprintf("%s %v", typ, gv.Coordinates)
+			desc = typ + " " + describe(gv.Coordinates, 0)
 		}
 		r.note("value:shaped-coordinates", true, uint64(core.NewHasher().Str("val").Str(desc)))
 		var g geom.Geom
